@@ -33,6 +33,9 @@ LEVEL_TEXT = (
 )
 LEVEL_NOTE = "Trusted: vpchk/refs reference digests (only consulted for mutants that verify), Hypothesis, the cheap-cost table."
 TECHNIQUE = "exhaustive single-edit sweep + Hypothesis structure-aware mutation fuzzing with exception-class and re-render/reference oracle"
+#: thorough tier: seed-dependent tasks are repeated under this many derived seeds (run.py); the listed task functions enumerate fixed domains
+THOROUGH_REPS = 3
+DETERMINISTIC_FNS = ('t_sweep',)
 
 PASSWORD = "pässw0rd"
 COST_LIMIT = {
